@@ -22,6 +22,9 @@ def execute(ctx: Ctx, ops: list[dict], tag: str, extra_path: Path | None = None)
             e["out"] = o
             if "t" in e and "judge" not in e:
                 e["judge"], e["cmp"] = gen.flags(e["t"])
+            if "acct" in e and "bank" in e and "cmp" not in e:
+                # components: is the Unicode upper-casing of every character the ASCII one the spec applies?
+                e["cmp"] = all(gen.flags(e.get(k) or [])[1] for k in ("bank", "branch", "acct"))
             events.append(e)
     return events
 
